@@ -39,7 +39,12 @@ def run_tlc(module, cfg_text, wd, workers=8, timeout=900, java_opts=None, env_ex
     cfg = os.path.join(wd, module + ".cfg")
     with open(cfg, "w") as fh:
         fh.write(cfg_text)
-    jopts = java_opts or ["-XX:+UseParallelGC", "-Xmx6g"]
+    jopts = list(java_opts or ["-XX:+UseParallelGC", "-Xmx6g"])
+    # TLC unpacks its standard modules into java.io.tmpdir on every run: keep that inside the (reused) work directory, not /tmp
+    jtmp = os.path.join(wd, "jtmp")
+    shutil.rmtree(jtmp, ignore_errors=True)
+    os.makedirs(jtmp, exist_ok=True)
+    jopts.append("-Djava.io.tmpdir=" + jtmp)
     cmd = ["timeout", str(timeout), "java"] + jopts + ["-cp", tlc_classpath(), "tlc2.TLC", "-workers", str(workers),
            "-metadir", os.path.join(wd, "states"), "-cleanup", "-noGenerateSpecTE", "-config", cfg]
     if coverage:
